@@ -75,8 +75,11 @@ theorem receiver_ignores_old (rpos ts : Int) :
 
 example : recv 10 (some 9) = (false, 10) ∧ recv 10 (some 10) = (true, 10) ∧ recv 10 (some 11) = (true, 11) := by decide
 
-/-- **position_monotone.**  Neither position ever moves backwards: SetLogPositionHandler takes the maximum,
-    the receiver's filter only records timestamps ≥ the old position, ReplayLog's `peer_ts` only grows. -/
+/-- **position_monotone.**  Neither of these three writers ever moves a position backwards: SetLogPositionHandler takes the
+    maximum, the receiver's filter only records timestamps ≥ the old position, ReplayLog's `peer_ts` only grows.
+    (The fourth writer, RelayMessageOne's `SetLocalLogPosition(ts)` for a skipped CONNECTED endpoint, apilistener.cpp:1321-1322,
+    can lower a position that a confirmation had put ahead of the clock; that is harmless — no event with a stamp in between
+    exists yet — and the property does not forbid it: clause position_advance_justified only restricts INCREASES.) -/
 theorem position_monotone (dec : Bytes → Option Entry) (vis : Nat → Bool) (limit : Nat) (now dur : Int) (s : Sender)
     (lpos rpos v : Int) (ts : Option Int) :
     lpos ≤ setLogPos lpos v ∧ v ≤ setLogPos lpos v ∧ (setLogPos lpos v = lpos ∨ setLogPos lpos v = v) ∧
@@ -186,7 +189,8 @@ example : entriesOf (fun b => if b == [104] then some ⟨1, 1, none⟩ else none
     (nsEncodeAll [[104]] ++ [52, 58, 110, 117, 108, 108, 44] ++ nsEncodeAll [[104]]) = [⟨1, 1, none⟩] := by decide
 
 /-- **survives_restart.**  A crash that lost no byte of `current`, followed by a new process on the same
-    directory, changes nothing in what ReplayLog sends. -/
+    directory, changes nothing in what ReplayLog sends.  (Byte-losing crashes: `crash_restart_exact`; graceful restarts and
+    the endpoint positions: `Op.stopStart` / clause restart_keeps_positions in `model_trace_meets_spec_partial`.) -/
 theorem survives_restart (dec : Bytes → Option Entry) (vis : Nat → Bool) (limit : Nat) (now now' dur p : Int) (s : Sender)
     (k : Nat) (hk : ∀ b, s.current = some b → b.length ≤ k) :
     (replay dec vis limit now dur p (start now' (crash k s))).out = (replay dec vis limit now dur p s).out := by
@@ -247,6 +251,8 @@ theorem step_meets_spec (c : Codec) (limit : Nat) (sp : SpecSt) (n : Node) (t : 
   | ack p v => exact step_ack c limit sp n t p v (by simpa [Op.peerOk] using hp) hr
   | recv p ts => exact step_recv c limit sp n t p ts (by simpa [Op.peerOk] using hp) hr
   | crashStart now sr tr => exact step_crashStart c limit sp n t now sr tr (ht now rfl) hr
+  | stopStart now sr tr => exact step_stopStart c limit sp n t now sr tr (ht now rfl) hr
+  | drop => exact step_drop c limit sp n t hr
 
 /-
   FULL STATEMENT (false of the unchanged code, F-C12c): the model's trace satisfies the WHOLE specification, i.e.
@@ -263,13 +269,17 @@ theorem step_meets_spec (c : Codec) (limit : Nat) (sp : SpecSt) (n : Node) (t : 
     threshold, every configuration (which of the two zone members is master, in which order the two endpoints of the child
     zone and of the parent zone are visited, the six log_durations), and every
     finite sequence of events (any security object), connects, disconnects, ReplayLog runs, rotations, clean-up
-    timer runs, log-position acknowledgements, incoming messages and crash-restarts of the sender, under a virtual
+    timer runs, log-position acknowledgements, incoming messages, crash-restarts (every byte written is on disk), GRACEFUL
+    restarts (ApiListener::Stop closes and rotates the log, a new process starts: `Op.stopStart`) and runtime removal of a
+    security object (`Op.drop`: ReplayLog no longer finds it, the spec no longer lets anybody see it) of the sender, under a virtual
     clock that advances by at least 1 µs per timed operation: the trace the model node produces satisfies the
     executable specification `specTrace` — every event for a disconnected related endpoint is logged; every replay
     delivers exactly known events, in order, none twice, none confirmed, none invisible, and all that are intact,
     unconfirmed, visible and inside the log_duration; the clean-up deletes nothing a related endpoint still needs;
-    the receiver filter and the acknowledgement are exact.
-    (Crash points that cut `current` inside a frame are covered per file by `truncation_tolerant`/`damage_tolerant`;
+    the receiver filter and the acknowledgement are exact; every new process comes up with the endpoint positions the old one
+    had (clause restart_keeps_positions).
+    (Crash points that cut `current` at ANY byte after ANY such history: `crash_anywhere_after_any_history`; what is appended
+    behind a torn frame afterwards: `persisted_after_crash_partial` / `_counterexample`, F-C12g;
     equal timestamps are excluded by the clock hypothesis, see `replay_exact_counterexample`.) -/
 theorem model_trace_meets_spec_partial (c : Codec) (limit : Nat) (t0 : Int) (h0 : 0 < t0) (pf sr tr : Bool) (durs : Nat → Int)
     (ops : List Op) (hc : ClockOK t0 ops) :
@@ -373,6 +383,147 @@ theorem model_positions_justified (c : Codec) (limit : Nat) (t0 : Int) (h0 : 0 <
     | none => rw [hnow] at hck; exact hck
     | some now => rw [hnow] at hck; exact hck.2
 
+/-! ## crash points: the sender dies at ANY byte of `current`, after ANY history -/
+
+/-- **crash_restart_exact** (a whole-directory restart theorem for byte-losing crashes).  A well-formed log directory whose
+    `current` holds the records `es`; the process dies and only the first `k` bytes of `current` reach the disk — ANY `k`, inside
+    a frame or between frames —, a new process starts on the directory (ApiListener::Start reopens `current` for appending) and
+    ReplayLog runs for an endpoint at position `p`: it sends EXACTLY the wanted (unconfirmed, visible) records of every rotated
+    file and of the `j` records of `current` whose frames lie wholly inside the surviving prefix, in order, each once — the torn
+    frame hides nothing before it and nothing in any other file. -/
+theorem crash_restart_exact (c : Codec) (vis : Nat → Bool) (limit : Nat) (now now' dur p : Int) (s : Sender) (es : List Entry) (k : Nat)
+    (hd : dur ≠ 0) (hcur : s.current = some (fileOf c es)) (wf : WF c.dec now (openLog now s)) :
+    ∃ j, msgsOf (replay c.dec vis limit now dur p (start now' (crash k s))).out
+          = ((sortByName s.files).flatMap (fun f => entriesOf c.dec f.bytes) ++ es.take j).filter (wanted vis p) ∧
+      (fileOf c (es.take j)).length ≤ k ∧ (j < es.length → k < (fileOf c (es.take (j + 1))).length) := by
+  obtain ⟨j, hj, hb1, hb2⟩ := truncation_tolerant c es k
+  refine ⟨j, ?_, hb1, hb2⟩
+  have hfull : entriesOf c.dec (fileOf c es) = es := by
+    have := entriesOf_encFile c (es.map (fun e => (⟨e, 0, true⟩ : GEntry)))
+    simpa [encFile, fileOf, List.map_map, Function.comp_def] using this
+  have hs'f : (openLog now (start now' (crash k s))).files = s.files := by simp [openLog, start, crash]
+  have hs'c : (openLog now (start now' (crash k s))).current = some ((fileOf c es).take k) := by
+    simp [openLog, start, crash, hcur]
+  have hv' : fullView c.dec now (openLog now (start now' (crash k s))) =
+      (sortByName s.files).flatMap (fun f => (entriesOf c.dec f.bytes).map (fun e => (f.name, e)))
+        ++ (es.take j).map (fun e => ((now + usec) / usec, e)) := by
+    simp only [fullView, hs'f, hs'c, hj]
+  have hv : fullView c.dec now (openLog now s) =
+      (sortByName s.files).flatMap (fun f => (entriesOf c.dec f.bytes).map (fun e => (f.name, e)))
+        ++ es.map (fun e => ((now + usec) / usec, e)) := by
+    simp only [fullView, openLog, hcur, hfull]
+  have wf' : WF c.dec now (openLog now (start now' (crash k s))) := by
+    constructor
+    · rw [hv']
+      have := wf.increasing
+      rw [hv] at this
+      exact this.sublist (List.Sublist.append (List.Sublist.refl _) ((List.take_sublist j es).map _))
+    · intro f hf
+      rw [hs'f] at hf
+      exact wf.named f hf
+  rw [(replay_exact c.dec vis limit now dur p _ hd wf').1, hv']
+  simp [List.map_flatMap, Function.comp_def]
+
+/-- Not vacuous: two records in `current`, the cut falls inside the second frame — the first one is replayed. -/
+example : msgsOf (replay (fun b => if b == [104] then some ⟨1, 1, none⟩ else if b == [105] then some ⟨2, 2, none⟩ else none)
+    (fun _ => true) 50000 10 (-1) 0 (start 5 (crash 6 { current := some (nsEncodeAll [[104], [105]]) }))).out = [⟨1, 1, none⟩] := by decide
+
+/-
+  FULL STATEMENT (false of the unchanged code, F-C12g): after a crash at ANY byte `k` of `current`, what the NEW process
+  persists is read back by ReplayLog, i.e. for all `k`:
+      entriesOf c.dec ((fileOf c es).take k ++ fileOf c es2) = (the records wholly inside the first k bytes) ++ es2.
+  ApiListener::Start only reopens `current` for appending (OpenLogFile, apilistener.cpp:1366-1382): behind a torn frame
+  the new frames are swallowed by / collide with it, the reader stops there (:1517-1524) and never reaches them —
+  `persisted_after_crash_counterexample`.  What holds is the statement for cuts that fall BETWEEN two frames.
+-/
+
+/-- **persisted_after_crash_partial.**  The crash cut `current` exactly behind its `j`-th frame: the surviving records and
+    everything the new process appends (`es2`, any number of records) are read, in order. -/
+theorem persisted_after_crash_partial (c : Codec) (es es2 : List Entry) (j : Nat) :
+    entriesOf c.dec ((fileOf c es).take (fileOf c (es.take j)).length ++ fileOf c es2) = es.take j ++ es2 := by
+  have hfull : ∀ l : List Entry, entriesOf c.dec (fileOf c l) = l := by
+    intro l
+    have := entriesOf_encFile c (l.map (fun e => (⟨e, 0, true⟩ : GEntry)))
+    simpa [encFile, fileOf, List.map_map, Function.comp_def] using this
+  have happ : ∀ a b : List Entry, fileOf c (a ++ b) = fileOf c a ++ fileOf c b := by
+    intro a b; simp [fileOf, List.map_append, nsEncodeAll_append]
+  have hsplit : fileOf c es = fileOf c (es.take j) ++ fileOf c (es.drop j) := by
+    rw [← happ, List.take_append_drop]
+  rw [hsplit, List.take_left' rfl, ← happ]
+  exact hfull _
+
+example : entriesOf (fun b => if b == [104] then some ⟨1, 1, none⟩ else if b == [105] then some ⟨2, 2, none⟩ else none)
+    ((nsEncodeAll [[104], [104]]).take 4 ++ nsEncodeAll [[105]]) = [⟨1, 1, none⟩, ⟨2, 2, none⟩] := by decide
+
+/-- **persisted_after_crash_counterexample** (F-C12g).  The log holds one record; the process dies with 2 of its 4 bytes on
+    disk; a new process starts, persists a second record for the absent peer (it IS on disk, behind the torn frame) — and
+    ReplayLog to that peer, unconfirmed position 0, everything visible, sends nothing: the event a healthy process logged is
+    never replayed. -/
+theorem persisted_after_crash_counterexample :
+    let dec : Bytes → Option Entry := fun b => if b == [104] then some ⟨1, 1, none⟩ else if b == [105] then some ⟨7, 2, none⟩ else none
+    let s1 := persist 50000 1 [104] 1 (start 1 {})
+    let s2 := start 5 (crash 2 s1)
+    let s3 := persist 50000 7 [105] 7 s2
+    s1.current = some (nsEncode [104]) ∧ s3.current = some ((nsEncode [104]).take 2 ++ nsEncode [105]) ∧
+    msgsOf (replay dec (fun _ => true) 50000 9 (-1) 0 s3).out = [] ∧
+    -- had the crash lost the whole torn frame (or none of it), the new record would be replayed
+    msgsOf (replay dec (fun _ => true) 50000 9 (-1) 0 (persist 50000 7 [105] 7 (start 5 (crash 0 s1)))).out = [⟨7, 2, none⟩] := by
+  decide
+
+/-- The clause persisted_after_crash_replayed is not vacuous: it rejects exactly the replay that omits the event appended
+    behind a frame a crash tore, accepts the replay that has it, and does not judge events a second crash cut off. -/
+example : tornTrace (specInit [-1, -1, -1, -1, -1, -1]) {}
+    [⟨.relay 10 1 none (some 20) none, [0, 0, 0, 0, 0, 0, 0, 0, 0, 0, 0, 0]⟩, ⟨.damage ⟨none, 7, false⟩, [0, 0, 0, 0, 0, 0, 0, 0, 0, 0, 0, 0]⟩,
+     ⟨.restart, [0, 0, 0, 0, 0, 0, 0, 0, 0, 0, 0, 0]⟩, ⟨.relay 30 2 none (some 20) none, [0, 0, 0, 0, 0, 0, 0, 0, 0, 0, 0, 0]⟩,
+     ⟨.replay 40 0 [] none, [0, 0, 0, 0, 0, 0, 0, 0, 0, 0, 0, 0]⟩] 0 = some 4 := by decide
+example : tornTrace (specInit [-1, -1, -1, -1, -1, -1]) {}
+    [⟨.relay 10 1 none (some 20) none, [0, 0, 0, 0, 0, 0, 0, 0, 0, 0, 0, 0]⟩, ⟨.damage ⟨none, 7, false⟩, [0, 0, 0, 0, 0, 0, 0, 0, 0, 0, 0, 0]⟩,
+     ⟨.restart, [0, 0, 0, 0, 0, 0, 0, 0, 0, 0, 0, 0]⟩, ⟨.relay 30 2 none (some 20) none, [0, 0, 0, 0, 0, 0, 0, 0, 0, 0, 0, 0]⟩,
+     ⟨.replay 40 0 [.m 2 30] none, [0, 0, 0, 0, 0, 0, 0, 0, 0, 0, 0, 0]⟩] 0 = none := by decide
+example : tornTrace (specInit [-1, -1, -1, -1, -1, -1]) {}
+    [⟨.relay 10 1 none (some 20) none, [0, 0, 0, 0, 0, 0, 0, 0, 0, 0, 0, 0]⟩, ⟨.damage ⟨none, 7, false⟩, [0, 0, 0, 0, 0, 0, 0, 0, 0, 0, 0, 0]⟩,
+     ⟨.restart, [0, 0, 0, 0, 0, 0, 0, 0, 0, 0, 0, 0]⟩, ⟨.relay 30 2 none (some 20) none, [0, 0, 0, 0, 0, 0, 0, 0, 0, 0, 0, 0]⟩,
+     ⟨.damage ⟨none, 9, false⟩, [0, 0, 0, 0, 0, 0, 0, 0, 0, 0, 0, 0]⟩, ⟨.replay 40 0 [] none, [0, 0, 0, 0, 0, 0, 0, 0, 0, 0, 0, 0]⟩] 0 = none := by decide
+
+/-- Every state the node reaches under an advancing clock is related to some ghost history. -/
+theorem reachable_rel (c : Codec) (limit : Nat) : ∀ (ops : List Op) (sp : SpecSt) (n : Node) (t : Int), Rel c sp n t → ClockOK t ops →
+    ∃ sp' t', Rel c sp' (endNode c limit n ops) t' := by
+  intro ops
+  induction ops with
+  | nil => intro sp n t h _; exact ⟨sp, t, h⟩
+  | cons op rest ih =>
+    intro sp n t hr hck
+    simp only [ClockOK] at hck
+    obtain ⟨hp, hck⟩ := hck
+    have ht : ∀ now, op.time = some now → t < now := by
+      intro now hnow; rw [hnow] at hck; exact hck.1
+    obtain ⟨sp', _, h2⟩ := step_meets_spec c limit sp n t op hr hp ht
+    refine ih sp' _ (op.time.getD t) h2 ?_
+    cases hnow : op.time with
+    | none => rw [hnow] at hck; exact hck
+    | some now => rw [hnow] at hck; exact hck.2
+
+/-- **crash_anywhere_after_any_history** ("for all crash points", on the model node).  After EVERY operation sequence under an
+    advancing clock — events, connects, replays, rotations, clean-ups, acknowledgements, graceful and crash restarts, object
+    removal — let the process die with only the first `k` bytes of `current` on disk, for ANY `k`, and a new process replay to an
+    endpoint at ANY position `p` with ANY visibility: `current` held well-framed records `es`, and the replay sends exactly the
+    wanted records of all rotated files and of the first `j` records of `current`, `j` = the number of frames wholly inside the
+    surviving `k` bytes. -/
+theorem crash_anywhere_after_any_history (c : Codec) (limit : Nat) (t0 : Int) (h0 : 0 < t0) (pf sr tr : Bool) (durs : Nat → Int)
+    (ops : List Op) (hc : ClockOK t0 ops) (vis : Nat → Bool) (now now' dur p : Int) (k : Nat) (hd : dur ≠ 0) :
+    let s := (endNode c limit (initNode t0 pf sr tr durs) ops).snd
+    ∃ es j, s.current = some (fileOf c es) ∧
+      msgsOf (replay c.dec vis limit now dur p (start now' (crash k s))).out
+          = ((sortByName s.files).flatMap (fun f => entriesOf c.dec f.bytes) ++ es.take j).filter (wanted vis p) ∧
+      (fileOf c (es.take j)).length ≤ k ∧ (j < es.length → k < (fileOf c (es.take (j + 1))).length) := by
+  intro s
+  obtain ⟨sp, t, hr⟩ := reachable_rel c limit ops _ _ t0 (rel_init c t0 h0 pf sr tr durs) hc
+  have hcur : s.current = some (fileOf c (sp.cur.map (·.e))) := by
+    rw [show s.current = _ from hr.cur]
+    simp [encFile, fileOf, List.map_map, Function.comp_def]
+  obtain ⟨j, h1, h2, h3⟩ := crash_restart_exact c vis limit now now' dur p s _ k hd hcur (wf_rel c sp _ t now hr)
+  exact ⟨_, j, hcur, h1, h2, h3⟩
+
 /-- The clause rejects a position raised for a disconnected endpoint by a relayed event (the seeded reordering of the
     "zone already has it" test before the "endpoint is disconnected" test), accepts it for a connected one. -/
 example : advanceOk { (specInit []) with conn := [false, true, false, false, false, false] }
@@ -385,8 +536,20 @@ example : advanceOk { (specInit []) with conn := [false, true, false, true, fals
 example : ClockOK 1000000
     [.relay 1000001 1 none, .relay 1000002 2 (some 1), .rotate 3000000, .relay 3000001 3 (some 4), .timer 9000000,
      .conn 0, .replay 9000001 0, .ack 0 2000000, .recv 0 5, .crashStart 9500000 true false, .conn 1, .relay 9500001 4 (some 1),
-     .conn 3, .replay 9500002 3, .conn 5, .replay 9500003 5] := by
+     .conn 3, .replay 9500002 3, .conn 5, .replay 9500003 5, .relay 9500004 5 (some 3), .drop, .stopStart 9600000 false true,
+     .conn 1, .replay 9600001 1, .timer 9700000] := by
   simp [ClockOK, Op.peerOk, Op.time]
+
+/-- The clause restart_keeps_positions is not vacuous: a new process that comes up with a lost local position is rejected,
+    one with the old positions is accepted.  And after the object "zx" was removed, replaying an event about it is rejected. -/
+example : (specStep { (specInit [-1, -1, -1, -1, -1, -1]) with pos := [0, 0, 7, 0, 0, 0, 0, 0, 0, 0, 0, 0] }
+    ⟨.restart, [0, 0, 0, 0, 0, 0, 0, 0, 0, 0, 0, 0]⟩).1 = some .restartKeepsPositions := by decide
+example : (specStep { (specInit [-1, -1, -1, -1, -1, -1]) with pos := [0, 0, 7, 0, 0, 0, 0, 0, 0, 0, 0, 0] }
+    ⟨.restart, [0, 0, 7, 0, 0, 0, 0, 0, 0, 0, 0, 0]⟩).1 = none := by decide
+example : (specTrace (specInit [-1, -1, -1, -1, -1, -1])
+    [⟨.relay 10 1 (some 3) (some 20) none, [0, 0, 0, 0, 0, 0, 0, 0, 0, 0, 0, 0]⟩, ⟨.drop, [0, 0, 0, 0, 0, 0, 0, 0, 0, 0, 0, 0]⟩,
+     ⟨.conn 1, [0, 0, 0, 0, 0, 0, 0, 0, 0, 0, 0, 0]⟩, ⟨.replay 20 1 [.m 1 10] none, [0, 0, 0, 0, 0, 0, 0, 0, 0, 0, 0, 0]⟩] 0)
+    = some (3, .replayVisible) := by decide
 
 /-- The spec predicate is not vacuous: it rejects a replay that omits a logged, unconfirmed event, and one
     that repeats an event. -/
